@@ -132,11 +132,21 @@ func (ex *Exec) localDays(st *State, t *StructV) (*term.Term, *term.Term) {
 	return term.Add(days, q), r
 }
 
+type ymdWitness struct {
+	y, m, d *term.Term
+	cons    *term.Term
+}
+
 func (ex *Exec) freshYMD(st *State, ord *term.Term) (y, m, d *term.Term) {
 	if ord.IsConst() {
 		// concrete: compute directly
 		yy, mm, dd := civilFromDays(int64(ord.Val))
 		return c64(yy), c64(mm), c64(dd)
+	}
+	if memo, ok := ex.ymdMemo[ord.ID]; ok {
+		// the civil date is a function of the ordinal: the same ordinal term gets the same witnesses
+		st.G = term.And(st.G, memo.cons)
+		return memo.y, memo.m, memo.d
 	}
 	y, m, d = ex.Fresh("Y", term.BV(64)), ex.Fresh("M", term.BV(64)), ex.Fresh("D", term.BV(64))
 	// the month is within 1..12 by validity, so the plain (un-normalised) ordinal applies
@@ -146,7 +156,12 @@ func (ex *Exec) freshYMD(st *State, ord *term.Term) (y, m, d *term.Term) {
 	o400 := term.Mul(ord, c64(400))
 	yl := term.Mul(term.Sub(y, c64(1)), c64(146097))
 	lin := term.And(term.Sge(o400, term.Sub(yl, c64(591))), term.Sle(o400, term.Add(yl, c64(146288))))
-	st.G = term.And(st.G, term.Sge(y, c64(-(1<<33))), term.Sle(y, c64(1<<33)), validYMD(y, m, d), term.Eq(o, ord), lin)
+	cons := term.And(term.Sge(y, c64(-(1<<33))), term.Sle(y, c64(1<<33)), validYMD(y, m, d), term.Eq(o, ord), lin)
+	if ex.ymdMemo == nil {
+		ex.ymdMemo = map[int]ymdWitness{}
+	}
+	ex.ymdMemo[ord.ID] = ymdWitness{y, m, d, cons}
+	st.G = term.And(st.G, cons)
 	return
 }
 
